@@ -208,15 +208,25 @@ def run(chk):
         N = rng.randint(1, 12)
         record_all = rng.random() < 0.5
         api = rng.choice(["compute_dynamics", "compute_dynamics_with_field", "compute_gradient_and_dynamics"])
+        if i < 4:
+            # every run: the empty propagation (num_steps = 0: the grid is the start time alone), with a process tensor that is longer
+            api, N, record_all = ["compute_dynamics", "compute_dynamics_with_field"][i % 2], 0, i < 2
         ident = np.identity(4, dtype=complex)
+        long_pt = None
+        if N == 0:
+            long_pt = oqupy.process_tensor.SimpleProcessTensor(2, dt=dt)
+            for kk in range(4):
+                long_pt.set_mpo_tensor(kk, np.ones((1, 1, 4), dtype=complex))
+            for kk in range(5):
+                long_pt.set_cap_tensor(kk, np.ones(1, dtype=complex))
         if api == "compute_dynamics":
-            dyn = quiet(oqupy.compute_dynamics, InjSystem(2, [(ident, ident)]), initial_state=_rho, dt=dt,
+            dyn = quiet(oqupy.compute_dynamics, InjSystem(2, [(ident, ident)]), initial_state=_rho, dt=dt, process_tensor=long_pt,
                         num_steps=N, start_time=start, record_all=record_all, progress_type="silent")
             times, nstates = list(dyn.times), len(dyn.states)
         elif api == "compute_dynamics_with_field":
             s = oqupy.TimeDependentSystemWithField(lambda t, a: 0.0 * oqupy.operators.sigma("x"))
             mfs = oqupy.MeanFieldSystem([s], field_eom=lambda t, states, a: 0.0)
-            dyn = quiet(oqupy.compute_dynamics_with_field, mfs, 0.0, dt=dt, num_steps=N, start_time=start,
+            dyn = quiet(oqupy.compute_dynamics_with_field, mfs, 0.0, dt=dt, num_steps=N, start_time=start, process_tensor_list=[long_pt] if long_pt is not None else None,
                         initial_state_list=[_rho], record_all=record_all, progress_type="silent")
             times, nstates = list(dyn.times), len(dyn.fields)
         else:
